@@ -13,12 +13,14 @@ from . import common
 EXTRA_SCOPE: Dict[str, List[str]] = {
     # helpers the anchored files call into (found by reading the call graph of the anchors)
     "C01": ["odxtools/encoding.py", "odxtools/odxtypes.py", "odxtools/diagcodedtype.py",
-            "odxtools/field.py", "odxtools/linkeddtcdop.py"],
-    "C02": ["odxtools/diagcodedtype.py", "odxtools/odxtypes.py"],
+            "odxtools/field.py", "odxtools/linkeddtcdop.py", "odxtools/compumethods/*.py"],
+    "C02": ["odxtools/diagcodedtype.py", "odxtools/odxtypes.py", "odxtools/compumethods/*.py",
+            "odxtools/dataobjectproperty.py"],
     "C03": ["odxtools/odxtypes.py", "odxtools/parameters/*.py", "odxtools/diagcodedtype.py"],
     "C04": ["odxtools/odxtypes.py", "odxtools/endofpdufield.py", "odxtools/diagcodedtype.py",
-            "odxtools/field.py"],
-    "C05": ["odxtools/parameters/*.py", "odxtools/codec.py", "odxtools/leadinglengthinfotype.py"],
+            "odxtools/field.py", "odxtools/compumethods/*.py"],
+    "C05": ["odxtools/parameters/*.py", "odxtools/codec.py", "odxtools/leadinglengthinfotype.py",
+            "odxtools/paramlengthinfotype.py", "odxtools/compumethods/*.py"],
     "C06": ["odxtools/response.py", "odxtools/request.py", "odxtools/diaglayers/*.py"],
     "C07": ["odxtools/compumethods/*.py"],
     "C08": ["odxtools/encodestate.py", "odxtools/diagservice.py"],
@@ -55,3 +57,6 @@ def run_shared(prog: Program, run: Run, prop: str) -> None:
              "written, no memo keyed by a name, no lazily cached value that ignores an argument, "
              "no memoised method beyond the frozen reference set", floor=1)
     common.g4_hidden_state(prog, run, f"{prop}.G4", sc)
+    run.rule(f"{prop}.G5", "absent values are tested by identity, not truthiness, in the anchored "
+             "code (0, 0.0, '' and b'' are values)", floor=0)
+    common.g5_absence_by_truthiness(prog, run, f"{prop}.G5", sc)
